@@ -43,23 +43,24 @@ type Result struct {
 	Sections    map[string]int64       `json:"sections,omitempty"`
 	// Uniques are key -> (value, signature): vcheck reports the signature as a violation when two
 	// shards disagree on the value of a key (a cross-process determinism oracle).
-	Uniques map[string][2]string `json:"uniques,omitempty"`
-	HarnessErr  string                 `json:"harness_error,omitempty"`
-	WallS       float64                `json:"wall_s"`
+	Uniques    map[string][2]string `json:"uniques,omitempty"`
+	HarnessErr string               `json:"harness_error,omitempty"`
+	WallS      float64              `json:"wall_s"`
 }
 
 // H is the harness handle.
 type H struct {
-	mu       sync.Mutex
-	R        Result
-	out      string
-	ReplayIn string
-	Seed     int64
-	deadline time.Time
-	start    time.Time
-	bySig    map[string]*Violation
-	sampleN  int64
-	Thorough bool
+	UniqueReplay interface{} // replay case for Unique conflicts
+	mu           sync.Mutex
+	R            Result
+	out          string
+	ReplayIn     string
+	Seed         int64
+	deadline     time.Time
+	start        time.Time
+	bySig        map[string]*Violation
+	sampleN      int64
+	Thorough     bool
 	// Quiet suppresses the coverage counters (used when several shards must
 	// re-run the same cheap cases and only one may count them).
 	Quiet bool
@@ -143,15 +144,21 @@ func (h *H) AddTransitions(n int64) { h.mu.Lock(); h.R.Transitions += n; h.mu.Un
 func (h *H) AddTraces(n int64)      { h.mu.Lock(); h.R.Traces += n; h.mu.Unlock() }
 
 // Unique records that key must have one value over all shards.
+// (h.UniqueReplay is the replay case recorded with a conflict found inside one shard.)
 func (h *H) Unique(key, value, sig string) {
 	h.mu.Lock()
 	if h.R.Uniques == nil {
 		h.R.Uniques = map[string][2]string{}
 	}
-	if _, ok := h.R.Uniques[key]; !ok {
+	old, ok := h.R.Uniques[key]
+	if !ok {
 		h.R.Uniques[key] = [2]string{value, sig}
 	}
 	h.mu.Unlock()
+	if ok && old[0] != value {
+		// two different answers inside one shard are a conflict just as two shards disagreeing
+		h.Violate(sig, fmt.Sprintf("%s has more than one answer: %q and %q", key, old[0], value), h.UniqueReplay)
+	}
 }
 
 // Outcome counts an observed outcome class.
